@@ -24,7 +24,7 @@ def cases(tier, r):
     fresh = argstore.Fresh()
     args, kwargs = argstore.gen_init(r, sig, fresh, malformed=0.0, allow_tv=True)
     ops = [o for o in argstore.gen_tag_ops(r, sig, fresh, r.randint(1, 10))
-           if o[0] not in ('update_callable', 'copy_with', 'suspend', 'resume')]
+           if o[0] not in ('update_callable', 'copy_with', 'suspend', 'resume', 'enter_suspend', 'exit_suspend')]
     # parameters tagged through an Annotated[...] annotation (half of the cases)
     ann = argstore.gen_ann(r, sig) if r.random() < 0.5 else []
     yield 'tagops', {'p': 'argstore', 'sig': sig, 'args': args, 'kwargs': kwargs, 'ops': ops, 'ann': ann}
